@@ -21,7 +21,7 @@ TEXT = {
  'C09': ('Seeded deterministic simulation of the pipeline generator -> file -> solver (LP mode on the stand-in back end and brute-force mode) in one simulated world; loaded model compared with the reference parse, results with the reference semantics.', '5/C09'),
  'C11': ('Seeded deterministic simulation; short/long result text re-derived from instance file and printed matching line over the diverse matchings the back-end seam produces (uniform tie-break, no criteria half of the time).', '5/C11'),
  'C12': ('Seeded deterministic simulation of the real generator (two-sided sm/hr/spa); second-side lists compared with first-side lists of the same captured file; size sweep 13..1500 agents and a giant lane with more than 65535 first-side agents.', '5/C12 and 20'),
- 'C13': ('Seeded deterministic simulation: tie decisions are RNG draws; the (list, decisions) -> strings calls of the writer are observed, the same file is loaded by the real solver and ranks compared; coverage of the 2^n decision space is measured.', '5/C13'),
+ 'C13': ('Seeded deterministic simulation: tie decisions are RNG draws; the (list, decisions) -> strings calls of the writer are observed, the same file is loaded by the real solver and ranks compared; coverage of the 2^n decision space is measured; five-digit ids, a size sweep and a giant lane with more than 65535 first-side agents (file generated, then only loaded).', '5/C13 and 20'),
  'C14': ('Fault enumeration at the back-end seam: for each seeded scenario every single fault (round x kind x transient/persistent x value mode; kinds: Infeasible, Unbounded, Undefined, Not Solved, time-limit stop with and without incumbent, and a crash of the solver process = PulpSolverError out of actualSolve) and every pair of faults for up to two (thorough: three) underlying solves, a seeded sample beyond, is injected under a simulated clock; the result text is checked against the recorded history.', '5/C14 and 20'),
  'C15': ('Seeded deterministic simulation of argument vectors and all single-fault perturbations; acceptance or SystemExit(2); the file-system spy proves nothing was written before a rejection.', '5/C15'),
  'C16': ('Seeded deterministic simulation of position assignments x flag permutations; order of performed/reported criteria, refusal before the instance is opened (spy), reported prefix under an injected non-optimal solve.', '5/C16'),
